@@ -50,10 +50,44 @@ def runSpec : List String → String
     | none => "bad-op"
   | _ => "bad-op"
 
+def outcomesStr (os : List Outcome) : String := " | ".intercalate (os.map outcomeStr)
+
+/-- histories: `cgov … <shape A> <shape B>` two overlapping requests (B served while A is parked inside the password
+backend), `cgexp … <shape>` the same request served while its cookie is valid and again after its expiry. `dec` is the
+history decision: every request on what it carries, at the time it is served. -/
+def runHist (dec : Cfg → List (List Char) → List CGReq → List Outcome) : List String → Option String
+  | "cgov" :: allowed :: target :: ctype :: rest =>
+    if rest.length != 14 then some "bad-op" else
+    match parseReq (rest.take 7), parseReq (rest.drop 7) with
+    | some a, some b =>
+      let post : Post := if !knownType ctype then .refused 400 else .ok
+      some (outcomesStr (dec a.cfg (parseAllowed allowed)
+        [{ req := a.req, sealed := false, target := target, post := post },
+         { req := b.req, sealed := false, target := target, post := post }]))
+    | _, _ => some "bad-op"
+  | "cgexp" :: allowed :: target :: ctype :: rest =>
+    match parseReq rest with
+    | some p =>
+      let post : Post := if !knownType ctype then .refused 400 else .ok
+      let r : CGReq := { req := p.req, sealed := false, target := target, post := post }
+      some (outcomesStr (dec p.cfg (parseAllowed allowed) [r, r.servedAt laterNow]))
+    | none => some "bad-op"
+  | _ => none
+
+def runAll (v : Variant) (fs : List String) : String :=
+  match runHist (fun cfg allowed rs => rs.map (decideWith v cfg allowed)) fs with
+  | some s => s
+  | none => run v fs
+
+def runSpecAll (fs : List String) : String :=
+  match runHist specDecideHistory fs with
+  | some s => s
+  | none => runSpec fs
+
 def handler (mode : String) : Option Handler :=
-  if mode == "model" then some (.pure (run fixed))
-  else if mode == "model-asfound" then some (.pure (run asFound))
-  else if mode == "judge" then some (.pure runSpec)
+  if mode == "model" then some (.pure (runAll fixed))
+  else if mode == "model-asfound" then some (.pure (runAll asFound))
+  else if mode == "judge" then some (.pure runSpecAll)
   else none
 
 end KM.Driver.C01
